@@ -54,6 +54,8 @@ WEAK = ["ihsig", "rhsig", "idsig", "early", "cansend", "replay", "parity"]
 GEN = {
     "cover_genuine": ("cover", "SessionCover_genuine.cfg", "pair", True),
     "cover_adv": ("cover", "SessionCover_adv.cfg", "pair", False),
+    # every transition of the genuine model (self-loops included: a model no-op may be a code defect)
+    "edge_genuine": ("cover", "SessionEdge_genuine.cfg", "pair", True),
     "sim_genuine": ("sim", "SessionGen_genuine.cfg", "pair", True),
     "sim_adv": ("sim", "SessionGen_adv.cfg", "pair", False),
     "sim_cross": ("sim", "SessionGen_cross.cfg", "cross", False),
@@ -63,9 +65,9 @@ for _w in WEAK:
 
 TIERS = {
     "quick": dict(mc=[("genuine", "Session_genuine.cfg", 2), ("adv", "Session_adv.cfg", 6), ("cross", "Session_cross.cfg", 2)],
-                  sim=dict(sim_genuine=150, sim_adv=250, sim_cross=100, weak=50), cover_stride=dict(cover_genuine=1, cover_adv=3)),
+                  sim=dict(sim_genuine=150, sim_adv=250, sim_cross=100, weak=50), cover_stride=dict(cover_genuine=1, cover_adv=3, edge_genuine=1)),
     "thorough": dict(mc=[("genuine", "Session_genuine.cfg", 2), ("adv", "Session_adv_deep.cfg", 10), ("cross", "Session_cross_deep.cfg", 4)],
-                     sim=dict(sim_genuine=2000, sim_adv=4000, sim_cross=1500, weak=600), cover_stride=dict(cover_genuine=1, cover_adv=1)),
+                     sim=dict(sim_genuine=2000, sim_adv=4000, sim_cross=1500, weak=600), cover_stride=dict(cover_genuine=1, cover_adv=1, edge_genuine=1)),
 }
 
 
